@@ -155,6 +155,9 @@ def corner_shard(spec, idx, nshards, seed, per_row, cfgname=None):
     return acc
 
 
+PATH_MEMBERS = 3
+
+
 def operand_path_shard(spec, idx, nshards, seed, limit):
     """paths THROUGH from_bitarray: for every path of the class-selection decoder, the provenance-tracking word is pushed on through the selected
     class's from_bitarray (operand extraction, its special cases - imm5 == 0, Rd == SP with LSL #0..3, register-list counts - and its UNPREDICTABLE
@@ -184,6 +187,13 @@ def operand_path_shard(spec, idx, nshards, seed, limit):
                     a = dc.outcome_of(spec.decoder, w)
                     row, _ = table_decode(spec.table, w)
                     check_word(acc, spec, cpu, w, a, row, 'operand-path', rng)
+                    # other members of the same path (same decisions, the bits no decision looked at drawn at random): a condition that is missing from
+                    # a test - a special case that forgot one of its conjuncts - creates no path of its own, it makes one path too wide
+                    for wm in dc.members(int(w), list(_tr2) + list(spec.fixed), spec.nbits, rng, PATH_MEMBERS):
+                        if wm == int(w) or (spec.skip and spec.skip(wm)):
+                            continue
+                        rowm, _ = table_decode(spec.table, wm)
+                        check_word(acc, spec, cpu, wm, dc.outcome_of(spec.decoder, wm), rowm, 'operand-path-member', rng)
                     for w3 in sym.boundary_words(int(w), list(sym.HINTS), spec.nbits):
                         if spec.skip and spec.skip(w3):
                             continue
